@@ -6,6 +6,8 @@ import (
 	"fmt"
 	"iter"
 	"math"
+	"os"
+	"path/filepath"
 	"sort"
 	"time"
 
@@ -972,8 +974,19 @@ func (r *Runner) doSaveLoad(a *Action) error {
 	var buf bytes.Buffer
 	var pv any
 	var serr error
+	viaFile := ""
+	if a.Sel == 1 {
+		if dir, err := os.MkdirTemp("", "verif-saveload-"); err == nil {
+			defer os.RemoveAll(dir)
+			viaFile = filepath.Join(dir, "new", "sub", "cache.gob")
+		}
+	}
 	func() {
 		defer func() { pv = recover() }()
+		if viaFile != "" {
+			serr = otter.SaveCacheToFile(c, viaFile)
+			return
+		}
 		serr = otter.SaveCacheTo(c, &buf)
 	}()
 	if pv != nil {
@@ -1032,6 +1045,10 @@ func (r *Runner) doSaveLoad(a *Action) error {
 	var lerr error
 	func() {
 		defer func() { pv = recover() }()
+		if viaFile != "" {
+			lerr = otter.LoadCacheFromFile(tenv.C, viaFile)
+			return
+		}
 		lerr = otter.LoadCacheFrom(tenv.C, bytes.NewReader(buf.Bytes()))
 	}()
 	if pv != nil {
